@@ -88,7 +88,7 @@ package litefs
 //@   ensures   result ==> g.state == RWMutexStateExclusive && g.rw.excl == g && g.rw.sharedN == 0
 //@   ensures   !result ==> unchanged(g.state, g.rw.sharedN, g.rw.excl, g.rw.S)
 //@   ensures   wfGuard(g) && wfMutex(g.rw) && !held
-//@   ensures   forall h *RWMutexGuard :: h != g && h.rw == g.rw && old(wfGuard(h)) ==> wfGuard(h)
+//@   proves    forall h *RWMutexGuard :: h != g && h.rw == g.rw && old(wfGuard(h)) ==> wfGuard(h)
 //@   nopanic
 
 //@ func (g *RWMutexGuard) TryRLock [C12,C11,C10]
@@ -104,7 +104,7 @@ package litefs
 //@   ensures   result ==> g.state == RWMutexStateShared && g.rw.excl == nil && g.rw.sharedN >= 1
 //@   ensures   !result ==> unchanged(g.state, g.rw.sharedN, g.rw.excl, g.rw.S)
 //@   ensures   wfGuard(g) && wfMutex(g.rw) && !held
-//@   ensures   forall h *RWMutexGuard :: h != g && h.rw == g.rw && old(wfGuard(h)) ==> wfGuard(h)
+//@   proves    forall h *RWMutexGuard :: h != g && h.rw == g.rw && old(wfGuard(h)) ==> wfGuard(h)
 //@   nopanic
 
 //@ func (g *RWMutexGuard) Unlock [C12,C11,C10]
@@ -121,7 +121,7 @@ package litefs
 //@   ensures   old(g.state) == RWMutexStateExclusive ==> g.rw.excl == nil && g.rw.sharedN == 0
 //@   ensures   old(g.state) == RWMutexStateShared ==> g.rw.sharedN == old(g.rw.sharedN) - 1 && g.rw.excl == nil
 //@   ensures   wfGuard(g) && wfMutex(g.rw) && !held
-//@   ensures   forall h *RWMutexGuard :: h != g && h.rw == g.rw && old(wfGuard(h)) ==> wfGuard(h)
+//@   proves    forall h *RWMutexGuard :: h != g && h.rw == g.rw && old(wfGuard(h)) ==> wfGuard(h)
 //@   nopanic
 
 // Queries answer exactly what the corresponding attempt would, and change nothing.
@@ -164,6 +164,7 @@ package litefs
 //@   nopanic
 
 //@ func (rw *RWMutex) Guard [C12,C11]
+//@   inline
 //@   modifies
 //@   ensures   result.rw == rw && result.state == RWMutexStateUnlocked
 //@   nopanic
@@ -184,4 +185,409 @@ package litefs
 //@   ensures   err == nil ==> g.state == RWMutexStateShared
 //@   ensures   err != nil ==> unchanged(g.state, g.rw.sharedN, g.rw.excl, g.rw.S)
 //@   ensures   wfGuard(g) && wfMutex(g.rw)
+//@   nopanic
+
+// ===========================================================================
+// litefs.go — lock byte ranges and guard sets (C11)
+
+//@ pred sliceHas(a []LockType, t LockType) = exists i int :: 0 <= i && i < len(a) && a[i] == t
+//@ pred inRange(start uint64, end uint64, t LockType) = start <= uint64(t) && uint64(t) <= end
+//@ pred isDBLock(t LockType) = t == LockTypePending || t == LockTypeReserved || t == LockTypeShared
+//@ pred isSHMLock(t LockType) = t == LockTypeWrite || t == LockTypeCkpt || t == LockTypeRecover ||
+//@      t == LockTypeRead0 || t == LockTypeRead1 || t == LockTypeRead2 || t == LockTypeRead3 || t == LockTypeRead4 || t == LockTypeDMS
+
+//@ func ContainsLockType [C11,C03]
+//@   loop 1 invariant -1 <= rangeindex && rangeindex < len(a) && (forall j int :: 0 <= j && j <= rangeindex ==> a[j] != typ)
+//@   modifies
+//@   ensures   result == sliceHas(a, typ)
+//@   nopanic
+
+// The parsers return exactly the lock types whose byte lies in [start,end] (for all 2^128 ranges), never HALT.
+//@ func ParseDatabaseLockRange [C11]
+//@   ensures   forall i int :: 0 <= i && i < len(result) ==> isDBLock(result[i]) && inRange(start, end, result[i])
+//@   ensures   inRange(start, end, LockTypePending) ==> sliceHas(result, LockTypePending)
+//@   ensures   inRange(start, end, LockTypeReserved) ==> sliceHas(result, LockTypeReserved)
+//@   ensures   inRange(start, end, LockTypeShared) ==> sliceHas(result, LockTypeShared)
+//@   ensures   len(result) <= 3
+//@   nopanic
+
+//@ func ParseSHMLockRange [C11]
+//@   ensures   forall i int :: 0 <= i && i < len(result) ==> isSHMLock(result[i]) && inRange(start, end, result[i])
+//@   ensures   inRange(start, end, LockTypeWrite) ==> sliceHas(result, LockTypeWrite)
+//@   ensures   inRange(start, end, LockTypeCkpt) ==> sliceHas(result, LockTypeCkpt)
+//@   ensures   inRange(start, end, LockTypeRecover) ==> sliceHas(result, LockTypeRecover)
+//@   ensures   inRange(start, end, LockTypeRead0) ==> sliceHas(result, LockTypeRead0)
+//@   ensures   inRange(start, end, LockTypeRead1) ==> sliceHas(result, LockTypeRead1)
+//@   ensures   inRange(start, end, LockTypeRead2) ==> sliceHas(result, LockTypeRead2)
+//@   ensures   inRange(start, end, LockTypeRead3) ==> sliceHas(result, LockTypeRead3)
+//@   ensures   inRange(start, end, LockTypeRead4) ==> sliceHas(result, LockTypeRead4)
+//@   ensures   inRange(start, end, LockTypeDMS) ==> sliceHas(result, LockTypeDMS)
+//@   ensures   len(result) <= 9
+//@   nopanic
+
+//@ pred gUnlocked(g *RWMutexGuard) = g.state == RWMutexStateUnlocked
+//@ pred gShared(g *RWMutexGuard) = g.state == RWMutexStateShared && mem(g.rw.S, g)
+//@ pred gExcl(g *RWMutexGuard) = g.state == RWMutexStateExclusive && g.rw.excl == g
+
+// Ghost numbering of the twelve locks of a database (a proof device: it only says the twelve
+// by-value RWMutex fields are pairwise different objects, with 12 facts instead of 66).
+//@ spec func lockIdx(rw *RWMutex) int
+//@ pred locksNumbered(db *DB) = lockIdx(addr(db.pendingLock)) == 0 && lockIdx(addr(db.sharedLock)) == 1 && lockIdx(addr(db.reservedLock)) == 2 &&
+//@      lockIdx(addr(db.writeLock)) == 3 && lockIdx(addr(db.ckptLock)) == 4 && lockIdx(addr(db.recoverLock)) == 5 &&
+//@      lockIdx(addr(db.read0Lock)) == 6 && lockIdx(addr(db.read1Lock)) == 7 && lockIdx(addr(db.read2Lock)) == 8 &&
+//@      lockIdx(addr(db.read3Lock)) == 9 && lockIdx(addr(db.read4Lock)) == 10 && lockIdx(addr(db.dmsLock)) == 11
+
+// All twelve advisory locks of a database are well formed.
+//@ pred locksWF(db *DB) = locksNumbered(db) && wfMutex(addr(db.pendingLock)) && wfMutex(addr(db.sharedLock)) && wfMutex(addr(db.reservedLock)) &&
+//@      wfMutex(addr(db.writeLock)) && wfMutex(addr(db.ckptLock)) && wfMutex(addr(db.recoverLock)) &&
+//@      wfMutex(addr(db.read0Lock)) && wfMutex(addr(db.read1Lock)) && wfMutex(addr(db.read2Lock)) &&
+//@      wfMutex(addr(db.read3Lock)) && wfMutex(addr(db.read4Lock)) && wfMutex(addr(db.dmsLock))
+
+// Every guard of a guard set is well formed and bound to the matching lock of db.
+//@ pred guardSetWF(gs *GuardSet, db *DB) = gs != nil &&
+//@      wfGuard(addr(gs.pending)) && gs.pending.rw == addr(db.pendingLock) &&
+//@      wfGuard(addr(gs.shared)) && gs.shared.rw == addr(db.sharedLock) &&
+//@      wfGuard(addr(gs.reserved)) && gs.reserved.rw == addr(db.reservedLock) &&
+//@      wfGuard(addr(gs.write)) && gs.write.rw == addr(db.writeLock) &&
+//@      wfGuard(addr(gs.ckpt)) && gs.ckpt.rw == addr(db.ckptLock) &&
+//@      wfGuard(addr(gs.recover)) && gs.recover.rw == addr(db.recoverLock) &&
+//@      wfGuard(addr(gs.read0)) && gs.read0.rw == addr(db.read0Lock) &&
+//@      wfGuard(addr(gs.read1)) && gs.read1.rw == addr(db.read1Lock) &&
+//@      wfGuard(addr(gs.read2)) && gs.read2.rw == addr(db.read2Lock) &&
+//@      wfGuard(addr(gs.read3)) && gs.read3.rw == addr(db.read3Lock) &&
+//@      wfGuard(addr(gs.read4)) && gs.read4.rw == addr(db.read4Lock) &&
+//@      wfGuard(addr(gs.dms)) && gs.dms.rw == addr(db.dmsLock)
+
+// The full write lock: what a SQLite writer + checkpointer would hold in the database's journal mode.
+//@ pred holdsWriteLockRollback(gs *GuardSet) = gExcl(addr(gs.pending)) && gExcl(addr(gs.shared)) && gExcl(addr(gs.reserved))
+//@ pred holdsWriteLockWAL(gs *GuardSet) = gShared(addr(gs.shared)) && gShared(addr(gs.dms)) &&
+//@      gExcl(addr(gs.write)) && gExcl(addr(gs.ckpt)) && gExcl(addr(gs.recover)) &&
+//@      gExcl(addr(gs.read0)) && gExcl(addr(gs.read1)) && gExcl(addr(gs.read2)) && gExcl(addr(gs.read3)) && gExcl(addr(gs.read4))
+
+//@ pred dbModeIs(db *DB, m DBMode) = typeis(aload(db.mode), DBMode) && as(aload(db.mode), DBMode) == m
+
+//@ func (db *DB) newGuardSet [C11]
+//@   inline
+//@   requires  db != nil && locksWF(db)
+//@   modifies
+//@   ensures   fresh(result) && guardSetWF(result, db) && result.owner == owner && locksWF(db)
+//@   ensures   gUnlocked(addr(result.pending)) && gUnlocked(addr(result.shared)) && gUnlocked(addr(result.reserved)) &&
+//@             gUnlocked(addr(result.write)) && gUnlocked(addr(result.ckpt)) && gUnlocked(addr(result.recover)) &&
+//@             gUnlocked(addr(result.read0)) && gUnlocked(addr(result.read1)) && gUnlocked(addr(result.read2)) &&
+//@             gUnlocked(addr(result.read3)) && gUnlocked(addr(result.read4)) && gUnlocked(addr(result.dms))
+//@   nopanic
+
+//@ pred mutexUnchanged(rw *RWMutex) = unchanged(rw.sharedN, rw.excl)
+//@ pred locksUnchanged(db *DB) = mutexUnchanged(addr(db.pendingLock)) && mutexUnchanged(addr(db.sharedLock)) && mutexUnchanged(addr(db.reservedLock)) &&
+//@      mutexUnchanged(addr(db.writeLock)) && mutexUnchanged(addr(db.ckptLock)) && mutexUnchanged(addr(db.recoverLock)) &&
+//@      mutexUnchanged(addr(db.read0Lock)) && mutexUnchanged(addr(db.read1Lock)) && mutexUnchanged(addr(db.read2Lock)) &&
+//@      mutexUnchanged(addr(db.read3Lock)) && mutexUnchanged(addr(db.read4Lock)) && mutexUnchanged(addr(db.dmsLock))
+
+// All-or-nothing acquisition of the full write lock: on success the returned
+// fresh guard set holds exactly the locks a SQLite writer plus checkpointer
+// would hold in the database's journal mode; on failure every lock counter
+// and exclusive holder is as before (the deferred Unlock released everything).
+//@ func (db *DB) TryAcquireWriteLock [C11,C13,C10]
+//@   requires  db != nil && locksWF(db) && typeis(aload(db.mode), DBMode)
+//@   thorough  call/litefs.GuardSet.Unlock/pre
+//@   ensures   locksWF(db) [C11,C13,C10,thorough]
+//@   ensures   ret != nil ==> fresh(ret)
+//@   ensures   ret != nil ==> guardSetWF(ret, db) [C11,C13,C10,thorough]
+//@   ghost releasedAll bool = false
+//@   on call GuardSet.Unlock assert ret == nil ; then releasedAll = true
+//@   on return assert ret == nil ==> releasedAll
+//@   ensures   ret != nil && dbModeIs(db, DBModeRollback) ==> holdsWriteLockRollback(ret)
+//@   ensures   ret != nil && !dbModeIs(db, DBModeRollback) ==> holdsWriteLockWAL(ret)
+//@   nopanic
+
+// Guard-set level operations. A guard is "bound" when it and its mutex are well formed and the mutex carries ghost index k.
+//@ pred gBound(g *RWMutexGuard, k int) = wfGuard(g) && wfMutex(g.rw) && lockIdx(g.rw) == k
+//@ pred gsDatabaseBound(s *GuardSet) = s != nil && gBound(addr(s.pending), 0) && gBound(addr(s.shared), 1) && gBound(addr(s.reserved), 2)
+//@ pred gsSHMBound(s *GuardSet) = s != nil && gBound(addr(s.write), 3) && gBound(addr(s.ckpt), 4) && gBound(addr(s.recover), 5) &&
+//@      gBound(addr(s.read0), 6) && gBound(addr(s.read1), 7) && gBound(addr(s.read2), 8) && gBound(addr(s.read3), 9) &&
+//@      gBound(addr(s.read4), 10) && gBound(addr(s.dms), 11)
+// Effect of releasing guard g on its mutex, as a function of the guard's previous state.
+//@ pred released(g *RWMutexGuard) = g.state == RWMutexStateUnlocked &&
+//@      (old(g.state) == RWMutexStateUnlocked ==> unchanged(g.rw.sharedN, g.rw.excl)) &&
+//@      (old(g.state) == RWMutexStateExclusive ==> g.rw.excl == nil && g.rw.sharedN == 0) &&
+//@      (old(g.state) == RWMutexStateShared ==> g.rw.sharedN == old(g.rw.sharedN) - 1 && g.rw.excl == nil)
+
+//@ func (s *GuardSet) UnlockDatabase [C11,C10]
+//@   requires  gsDatabaseBound(s)
+//@   modifies  s.pending.state, s.pending.rw.sharedN, s.pending.rw.excl, s.pending.rw.S,
+//@             s.shared.state, s.shared.rw.sharedN, s.shared.rw.excl, s.shared.rw.S,
+//@             s.reserved.state, s.reserved.rw.sharedN, s.reserved.rw.excl, s.reserved.rw.S
+//@   ensures   gsDatabaseBound(s)
+//@   ensures   released(addr(s.pending)) && released(addr(s.shared)) && released(addr(s.reserved))
+//@   nopanic
+
+//@ func (s *GuardSet) UnlockSHM [C11,C10]
+//@   requires  gsSHMBound(s)
+//@   modifies  s.write.state, s.write.rw.sharedN, s.write.rw.excl, s.write.rw.S,
+//@             s.ckpt.state, s.ckpt.rw.sharedN, s.ckpt.rw.excl, s.ckpt.rw.S,
+//@             s.recover.state, s.recover.rw.sharedN, s.recover.rw.excl, s.recover.rw.S,
+//@             s.read0.state, s.read0.rw.sharedN, s.read0.rw.excl, s.read0.rw.S,
+//@             s.read1.state, s.read1.rw.sharedN, s.read1.rw.excl, s.read1.rw.S,
+//@             s.read2.state, s.read2.rw.sharedN, s.read2.rw.excl, s.read2.rw.S,
+//@             s.read3.state, s.read3.rw.sharedN, s.read3.rw.excl, s.read3.rw.S,
+//@             s.read4.state, s.read4.rw.sharedN, s.read4.rw.excl, s.read4.rw.S,
+//@             s.dms.state, s.dms.rw.sharedN, s.dms.rw.excl, s.dms.rw.S
+//@   ensures   gsSHMBound(s)
+//@   ensures   released(addr(s.write)) && released(addr(s.ckpt)) && released(addr(s.recover)) &&
+//@             released(addr(s.read0)) && released(addr(s.read1)) && released(addr(s.read2)) &&
+//@             released(addr(s.read3)) && released(addr(s.read4)) && released(addr(s.dms))
+//@   nopanic
+
+//@ func (s *GuardSet) Unlock [C11,C10,C13]
+//@   requires  gsDatabaseBound(s) && gsSHMBound(s)
+//@   modifies  s.pending.state, s.pending.rw.sharedN, s.pending.rw.excl, s.pending.rw.S,
+//@             s.shared.state, s.shared.rw.sharedN, s.shared.rw.excl, s.shared.rw.S,
+//@             s.reserved.state, s.reserved.rw.sharedN, s.reserved.rw.excl, s.reserved.rw.S,
+//@             s.write.state, s.write.rw.sharedN, s.write.rw.excl, s.write.rw.S,
+//@             s.ckpt.state, s.ckpt.rw.sharedN, s.ckpt.rw.excl, s.ckpt.rw.S,
+//@             s.recover.state, s.recover.rw.sharedN, s.recover.rw.excl, s.recover.rw.S,
+//@             s.read0.state, s.read0.rw.sharedN, s.read0.rw.excl, s.read0.rw.S,
+//@             s.read1.state, s.read1.rw.sharedN, s.read1.rw.excl, s.read1.rw.S,
+//@             s.read2.state, s.read2.rw.sharedN, s.read2.rw.excl, s.read2.rw.S,
+//@             s.read3.state, s.read3.rw.sharedN, s.read3.rw.excl, s.read3.rw.S,
+//@             s.read4.state, s.read4.rw.sharedN, s.read4.rw.excl, s.read4.rw.S,
+//@             s.dms.state, s.dms.rw.sharedN, s.dms.rw.excl, s.dms.rw.S
+//@   ensures   gsDatabaseBound(s) && gsSHMBound(s)
+//@   ensures   released(addr(s.pending)) && released(addr(s.shared)) && released(addr(s.reserved)) &&
+//@             released(addr(s.write)) && released(addr(s.ckpt)) && released(addr(s.recover)) &&
+//@             released(addr(s.read0)) && released(addr(s.read1)) && released(addr(s.read2)) &&
+//@             released(addr(s.read3)) && released(addr(s.read4)) && released(addr(s.dms))
+//@   nopanic
+
+// ===========================================================================
+// litefs.go — WAL reader and checksums on arbitrary bytes (C17, C03, C05)
+
+//@ func WALChecksum [C17,C03,C05]
+//@   requires  bo != nil && len(b) % 8 == 0
+//@   loop 1 invariant 0 <= i && i <= len(b) && i % 8 == 0
+//@   loop 1 decreases len(b) - i
+//@   modifies
+//@   nopanic
+
+//@ func JournalChecksum [C17,C05]
+//@   loop 1 invariant i < len(data)
+//@   loop 1 decreases i
+//@   modifies
+//@   nopanic
+
+// A WAL reader is usable for frames once a header was accepted: a byte order is known and the page
+// size is one WALChecksum accepts (a multiple of 8).
+//@ pred walReaderReady(r *WALReader) = r != nil && r.r != nil && r.bo != nil && r.pageSize % 8 == 0
+
+//@ func (r *WALReader) ReadHeader [C17,C03,C05]
+//@   requires  r != nil && r.r != nil
+//@   modifies  fields(r)
+//@   ensures   r.r == old(r.r)
+//@   ensures   err == nil ==> walReaderReady(r)
+//@   ensures   r.frameN == old(r.frameN)
+//@   nopanic
+
+//@ func (r *WALReader) ReadFrame [C17,C03,C05]
+//@   requires  walReaderReady(r)
+//@   modifies  fields(r), contents(data)
+//@   ensures   walReaderReady(r) && r.pageSize == old(r.pageSize)
+//@   ensures   err == nil ==> r.frameN == old(r.frameN) + 1
+//@   ensures   err != nil ==> r.frameN == old(r.frameN) && pgno == 0 && commit == 0
+//@   nopanic
+
+//@ func (r *WALReader) Offset [C17,C03]
+//@   requires  r != nil
+//@   modifies
+//@   nopanic
+
+//@ func (r *WALReader) PageSize [C17]
+//@   requires  r != nil
+//@   modifies
+//@   ensures   result == r.pageSize
+//@   nopanic
+
+// ===========================================================================
+// db.go — journal reader on arbitrary bytes (C17, C05)
+//
+// Nothing is required of the page size handed to the reader (callers pass
+// db.pageSize, which is zero for an empty database file) nor of any byte of
+// the journal. File offsets are assumed to stay below 2^62 (A-FS).
+
+//@ func journalHeaderOffset [C17,C05]
+//@   requires  offset == 0 || sectorSize != 0
+//@   modifies
+//@   ensures   offset == 0 ==> result == 0
+//@   ensures   offset != 0 ==> result == ((offset-1)/sectorSize + 1) * sectorSize
+//@   nopanic
+
+//@ func isByteSliceZero [C17]
+//@   loop 1 invariant -1 <= rangeindex && rangeindex < len(b)
+//@   modifies
+//@   nopanic
+
+//@ pred jrOK(r *JournalReader) = r != nil && (r.offset == 0 || r.sectorSize != 0) && (r.isValid ==> r.pageSize != 0 && r.sectorSize != 0)
+
+// Next: a segment is accepted only with a usable sector size and page size (so that the segment loop
+// of rollbackJournal makes progress and no division by zero can happen), and a frame buffer of
+// pageSize+8 bytes is in place for ReadFrame.
+//@ func (r *JournalReader) Next [C17,C05]
+//@   requires  jrOK(r) && r.pageSize <= 65536
+//@   ensures   jrOK(r) && r.pageSize == old(r.pageSize)
+//@   ensures   err == nil ==> r.sectorSize != 0 && r.pageSize != 0 && len(r.frame) == int(r.pageSize) + 8
+//@   ensures   err == nil ==> r.offset == old(r.offset) + int64(r.sectorSize) || old(r.offset) != 0
+//@   ensures   old(r.fi) != nil ==> r.fi == old(r.fi)
+//@   nopanic
+
+//@ func (r *JournalReader) ReadFrame [C17,C05]
+//@   requires  jrOK(r) && r.sectorSize != 0 && (r.frameN == 0 || len(r.frame) >= 8)
+//@   ensures   jrOK(r) && r.fi == old(r.fi) && r.sectorSize == old(r.sectorSize) && r.pageSize == old(r.pageSize) && r.isValid == old(r.isValid) && r.commit == old(r.commit)
+//@   ensures   unchanged(len(r.frame))
+//@   ensures   err == nil ==> len(data) == len(r.frame) - 8
+//@   nopanic
+
+//@ func (r *JournalReader) DatabaseSize [C17]
+//@   requires  r != nil
+//@   modifies
+//@   nopanic
+
+//@ func (r *JournalReader) IsValid [C17]
+//@   requires  r != nil
+//@   modifies
+//@   ensures   result == r.isValid
+//@   nopanic
+
+// ===========================================================================
+// Interface contracts. These are behavioural assumptions about every implementation of the interface
+// (listed as assumptions in the evidence): the injectable OS layer, the kernel-cache invalidator and the
+// replication client do not touch the in-memory state of DB/Store objects.
+//@ func litefs.Invalidator.*
+//@   pure
+//@ func litefs.OS.*
+//@   pure
+//@ func litefs.OS.OpenFile
+//@   pure
+//@   ensures ret1 == nil ==> ret0 != nil
+//@ func litefs.OS.Open
+//@   pure
+//@   ensures ret1 == nil ==> ret0 != nil
+//@ func litefs.OS.Create
+//@   pure
+//@   ensures ret1 == nil ==> ret0 != nil
+//@ func litefs.Client.*
+//@   pure
+
+// ===========================================================================
+// db.go — database object invariant and page checksum cache (C04; used by C02, C03, C05, C17)
+
+// Structural well-formedness of a DB object (what NewDB establishes and every method preserves).
+//@ pred dbWF(db *DB) = db != nil && db.os != nil && db.store != nil && db.pageSize <= 65536 &&
+//@      len(db.chksums.pages) <= 0xffffffff && len(db.chksums.blocks) <= 0xffffffff && chkArraysDisjoint(db) &&
+//@      typeis(aload(db.mode), DBMode) && typeis(aload(db.pos), ltx.Pos)
+
+// The per-page and per-block checksum slices never share a backing array.
+//@ pred chkArraysDisjoint(db *DB) = cap(db.chksums.blocks) == 0 || cap(db.chksums.pages) == 0 || !sameArray(db.chksums.pages, db.chksums.blocks)
+
+//@ func pageChksumBlock [C04,C03]
+//@   requires  pgno > 0
+//@   modifies
+//@   ensures   result == (pgno - 1) / 256
+//@   nopanic
+
+//@ func (db *DB) databasePageChecksum [C04,C03,C02]
+//@   requires  db != nil && pgno > 0 && len(db.chksums.pages) <= 0xffffffff
+//@   modifies
+//@   ensures   int(pgno) - 1 < len(db.chksums.pages) ==> result == db.chksums.pages[int(pgno) - 1]
+//@   ensures   int(pgno) - 1 >= len(db.chksums.pages) ==> result == 0
+//@   nopanic
+
+// setDatabasePageChecksum: the page's slot holds the new value (zero for the lock page), the cached
+// block aggregate that covers the page is cleared, every other slot and block is untouched.
+//@ func (db *DB) setDatabasePageChecksum [C04,C03,C02]
+//@   requires  db != nil && pgno > 0 && db.pageSize != 0 && len(db.chksums.pages) <= 0xffffffff && len(db.chksums.blocks) <= 0xffffffff && chkArraysDisjoint(db)
+//@   modifies  db.chksums.pages, contents(db.chksums.pages), contents(db.chksums.blocks)
+//@   ensures   chkArraysDisjoint(db)
+//@   ensures   len(db.chksums.pages) == (old(len(db.chksums.pages)) >= int(pgno) ? old(len(db.chksums.pages)) : int(pgno))
+//@   ensures   db.chksums.pages[int(pgno) - 1] == (pgno == ltx.LockPgno(db.pageSize) ? 0 : chksum)
+//@   ensures   forall i int :: 0 <= i && i < old(len(db.chksums.pages)) && i != int(pgno) - 1 ==> db.chksums.pages[i] == old(db.chksums.pages[i])
+//@   ensures   forall i int :: old(len(db.chksums.pages)) <= i && i < int(pgno) - 1 ==> db.chksums.pages[i] == 0
+//@   ensures   len(db.chksums.blocks) == old(len(db.chksums.blocks))
+//@   ensures   int((pgno - 1) / 256) < len(db.chksums.blocks) ==> db.chksums.blocks[int((pgno - 1) / 256)] == 0
+//@   ensures   forall b int :: 0 <= b && b < len(db.chksums.blocks) && b != int((pgno - 1) / 256) ==> db.chksums.blocks[b] == old(db.chksums.blocks[b])
+//@   nopanic
+
+// resetDatabasePageChecksumsAfter(commit): every slot at index >= commit is zero afterwards, slots below
+// are untouched, the length is unchanged, and no cached block aggregate survives for a block it touched.
+//@ func (db *DB) resetDatabasePageChecksumsAfter [C04,C02,C03]
+//@   requires  db != nil && db.pageSize != 0 && len(db.chksums.pages) <= 0xffffffff && len(db.chksums.blocks) <= 0xffffffff && chkArraysDisjoint(db)
+//@   loop 1 invariant commit <= i && len(db.chksums.pages) == old(len(db.chksums.pages)) && len(db.chksums.blocks) == old(len(db.chksums.blocks)) && chkArraysDisjoint(db) &&
+//@          (forall k int :: int(commit) <= k && k < int(i) && k < len(db.chksums.pages) ==> db.chksums.pages[k] == 0) &&
+//@          (forall k int :: 0 <= k && k < int(commit) && k < len(db.chksums.pages) ==> db.chksums.pages[k] == old(db.chksums.pages[k])) &&
+//@          (forall b int :: 0 <= b && b < len(db.chksums.blocks) ==> db.chksums.blocks[b] == 0 || db.chksums.blocks[b] == old(db.chksums.blocks[b]))
+//@   loop 1 modifies db.chksums.pages, contents(db.chksums.pages), contents(db.chksums.blocks)
+//@   loop 1 decreases len(db.chksums.pages) - int(i)
+//@   modifies  db.chksums.pages, contents(db.chksums.pages), contents(db.chksums.blocks)
+//@   ensures   len(db.chksums.pages) == old(len(db.chksums.pages)) && len(db.chksums.blocks) == old(len(db.chksums.blocks)) && chkArraysDisjoint(db)
+//@   ensures   forall k int :: int(commit) <= k && k < len(db.chksums.pages) ==> db.chksums.pages[k] == 0
+//@   ensures   forall k int :: 0 <= k && k < int(commit) && k < len(db.chksums.pages) ==> db.chksums.pages[k] == old(db.chksums.pages[k])
+//@   ensures   forall b int :: 0 <= b && b < len(db.chksums.blocks) ==> db.chksums.blocks[b] == 0 || db.chksums.blocks[b] == old(db.chksums.blocks[b])
+//@   nopanic
+
+// writeDatabasePage: exactly one page-aligned write of the page's bytes at (pgno-1)*pageSize, then the
+// page's checksum slot is ChecksumPage(pgno, data) (zero for the lock page) and the covering block
+// aggregate is cleared; on a replica-apply (invalidate) the kernel cache range is invalidated.
+//@ func (db *DB) writeDatabasePage [C04,C01,C02,C05,C17]
+//@   requires  dbWF(db) && db.pageSize != 0
+//@   ghost wrote bool = false
+//@   on call os.File.WriteAt assert !wrote && len(arg1) == int(db.pageSize) && arg2 == (int64(pgno) - 1) * int64(db.pageSize) ; then wrote = true
+//@   on call DB.setDatabasePageChecksum assert wrote && arg1 == pgno
+//@   on call Invalidator.InvalidateDBRange assert wrote && invalidate && arg1 == (int64(pgno) - 1) * int64(db.pageSize) && arg2 == int64(len(data))
+//@   ensures   dbWF(db) && db.pageSize == old(db.pageSize)
+//@   ensures   err == nil ==> wrote && pgno > 0 && len(data) == int(db.pageSize)
+//@   ensures   err == nil ==> len(db.chksums.pages) >= int(pgno) && db.chksums.pages[int(pgno) - 1] == (pgno == ltx.LockPgno(db.pageSize) ? 0 : ltx.ChecksumPage(pgno, data))
+//@   ensures   err == nil ==> (forall i int :: 0 <= i && i < old(len(db.chksums.pages)) && i != int(pgno) - 1 ==> db.chksums.pages[i] == old(db.chksums.pages[i]))
+//@   nopanic
+
+// truncateDatabase: the file is truncated to pageN*pageSize and fsynced before the checksum slots at and
+// beyond pageN are cleared.
+//@ func (db *DB) truncateDatabase [C04,C02,C05,C17]
+//@   requires  dbWF(db) && db.pageSize != 0
+//@   ghost stage int = 0
+//@   on call os.File.Truncate assert stage == 0 && arg1 == int64(pageN) * int64(db.pageSize) ; then stage = 1
+//@   on call os.File.Sync assert stage == 1 ; then stage = 2
+//@   on call DB.resetDatabasePageChecksumsAfter assert stage == 2 && arg1 == pageN ; then stage = 3
+//@   ensures   dbWF(db) && db.pageSize == old(db.pageSize) && len(db.chksums.pages) == old(len(db.chksums.pages))
+//@   ensures   err == nil ==> stage == 3
+//@   ensures   err == nil ==> (forall k int :: int(pageN) <= k && k < len(db.chksums.pages) ==> db.chksums.pages[k] == 0)
+//@   ensures   err == nil ==> (forall k int :: 0 <= k && k < int(pageN) && k < len(db.chksums.pages) ==> db.chksums.pages[k] == old(db.chksums.pages[k]))
+//@   nopanic
+
+// ===========================================================================
+// db.go — journal rollback and WAL scanning on arbitrary bytes (C17, C05)
+
+//@ func (db *DB) rollbackJournalSegment [C17,C05]
+//@   requires  dbWF(db) && db.pageSize != 0 && jrOK(r) && r.sectorSize != 0 && len(r.frame) >= 8
+//@   loop 1 invariant dbWF(db) && db.pageSize == old(db.pageSize) && jrOK(r) && r.sectorSize != 0 && len(r.frame) >= 8 &&
+//@          r.pageSize == old(r.pageSize) && r.isValid == old(r.isValid) && r.commit == old(r.commit) && r.sectorSize == old(r.sectorSize)
+//@   on call DB.writeDatabasePage assert arg4 == true
+//@   ensures   dbWF(db) && db.pageSize == old(db.pageSize) && jrOK(r) && r.pageSize == old(r.pageSize) && r.isValid == old(r.isValid) && r.commit == old(r.commit) && r.sectorSize == old(r.sectorSize)
+//@   nopanic
+
+// rollbackJournal: every accepted record is written back through writeDatabasePage; the size is restored
+// to the header's page count iff a valid header was read; the database is fsynced before the journal is removed.
+//@ func (db *DB) rollbackJournal [C17,C05]
+//@   requires  dbWF(db)
+//@   ghost synced bool = false
+//@   ghost truncated bool = false
+//@   loop 1 invariant dbWF(db) && db.pageSize == old(db.pageSize) && jrOK(r) && r.pageSize == db.pageSize && !synced && !truncated
+//@   on call DB.truncateDatabase assert r.isValid && arg2 == r.commit && !synced ; then truncated = true
+//@   on call os.File.Sync assert !synced && (r.isValid ==> truncated) ; then synced = (ret0 == nil)
+//@   on call OS.Remove op "ROLLBACKJOURNAL" assert synced
+//@   ensures   dbWF(db) && db.pageSize == old(db.pageSize)
+//@   nopanic
+
+// readWALPageOffsets: frames are read only after the header was accepted; the offsets map only ever
+// receives entries at commit frames.
+//@ func (db *DB) readWALPageOffsets [C17,C05,C03]
+//@   requires  dbWF(db) && f != nil
+//@   loop 1 invariant walReaderReady(r) && txOffsets != nil && offsets != nil
 //@   nopanic
